@@ -33,6 +33,10 @@ CLAIMED = {
   text='Coq theorems (Props/C11.v) about an executable model of join/join_with_self (key rendering, per-key aggregation index in the ordered store, target pass, full-outer tail, deduplication): for every source table the index holds under each key exactly the fold over the rows rendering that key; closed forms of sum, avg (sum/len), max, min, first, last, count, array over the matching non-null values; target rows are processed one by one in order, matched rows extended, inner drops exactly the unmatched, outer modes keep them with nulls, full-outer adds one row per unused key in key order, deduplication emits one row per distinct key; declared field types follow the regenerated AGGREGATORS table. Correspondence by vm_compute against the real join on generated tables (all modes, key shapes incl. row number, wildcard mapping, source_delete, join_with_self; >10240 keys in thorough); direct oracle = declarative relational definition.',
   note='Trusted: Coq kernel+vm_compute; KVFile as ordered map; numeric aggregates modelled over integers (avg/median only where exactly representable), sum/min/max also over strings; set compared as a set, any as membership; harness mirror of fix/expand/order_fields for the field order; median/counters/set closed forms are validated by correspondence only.',
   technique='Coq proof over executable model + generated constants + vm_compute correspondence + direct oracle', ref='5/C11'),
+ 'C13': dict(
+  text='Coq theorems (Props/C13.v) about executable models of load\'s own logic: limit_rows = firstn, string strategies yield only strings, stripping touches only string cells with whitespace at an end (Python rule) and keeps keys and row count, wrappers apply in the order cast -> strip -> limit, duplicate headers are rejected unless de-duplication is requested and unique headers are kept, tuple/package loading selects descriptor/iterator pairs by one predicate in order; the full header-uniqueness claim is refuted on the faithful model by a vm_compute witness (known finding). A model of Python\'s csv reader state machine and QUOTE_MINIMAL writer is compared with the csv module on well-formed and malformed text. Correspondence by vm_compute for headers, wrappers and whole CSV files loaded by the real load(); direct oracle = independent csv.reader parse of the same file plus the documented rules; cast_strategy=schema with on_error policies checked by oracle.',
+  note='Partial by design: tabulator\'s dialect sniffing and type inference are third-party heuristics outside the model (their deviations are recognised as known finding C13.tabulator_sniffer); the CSV round-trip theorem is validated by correspondence here (proof obligations listed in DESIGN.md); str.isspace modelled for the generated code points.',
+  technique='Coq proof over executable model + refutation witness + vm_compute correspondence + direct oracle', ref='5/C13'),
 }
 
 NOT_YET = 'check not built yet (work in progress; will be claimed once its Coq model, theorems and correspondence check exist)'
